@@ -48,4 +48,35 @@ theorem F26_new_reads_inside :
     ∀ p ∈ gbmvReadA { trans := true, m := 2, n := 2, kl := 0, ku := 2, lda := 3, incx := 1, incy := 1 },
       0 ≤ (0 : Int) - 2 + p ∧ (0 : Int) - 2 + p < 4 := by decide
 
+/-! ### why the recording loops are transcribed literally
+
+Two edits of the recording code that leave every product VALUE intact and only change the recorded statements (they are
+seeded regressions of the check, seeded/C15_2, C15_4, C15_5); restated here against the model, each with a concrete
+operand on which the recorded statement is no longer the differential of the defining sum. -/
+
+/-- the reversed 2-element vector `x = v(stride(1,0,-1))` over the cells `[3, 4]`: `x[0] = 4`, `x[1] = 3` -/
+def xRev : Vec Int := { v := { base := 1, d := 2, o := -1 }, mem := fun p => if p < 0 then 0 else [3, 4].getD p.toNat 0, buf := .R }
+def aRow : Mat Int := { v := { base := 0, d0 := 1, d1 := 2, o0 := 2, o1 := 1 }, mem := fun p => [1, 2].getD p.toNat 0, buf := .L }
+
+/-- as coded, the multipliers for an active left matrix are walked from `right.const_data()` (the logically first
+    element) with the vector's own stride: `(x[0], dA[0,0]), (x[1], dA[0,1])` … -/
+theorem multipliers_from_const_data :
+    (gemvRecord ⟨true, .L, 0⟩ ⟨false, .R, 0⟩ aRow xRev { base := 0, d := 1, o := 1 }).map (fun s => s.ops) =
+      [[(4, ⟨.L, 0⟩), (3, ⟨.L, 1⟩)]] := by decide
+
+/-- … whereas walking them from the BLAS start pointer (`blas_vector_start`, the lowest address: the hoisted `right_data`
+    of the seeded edits) starts at `x[1]` and leaves the operand (cell −1 reads as 0 in the model; in C++ it is whatever
+    precedes the vector): the statement would carry `(3, dA[0,0]), (0, dA[0,1])`. -/
+theorem multipliers_from_blas_start_wrong :
+    pushDependence .L 0 xRev.mem (blasVectorStart xRev.v.base xRev.v.d xRev.v.o) xRev.v.d aRow.v.o1 xRev.v.o =
+      [(3, ⟨.L, 0⟩), (0, ⟨.L, 1⟩)] ∧
+    blasVectorStart xRev.v.base xRev.v.d xRev.v.o + 1 * xRev.v.o = -1 := by decide
+
+/-- a column-major band matrix with 2 sub-diagonals and no super-diagonal, `dim = 3`: row 2 has the in-band columns
+    0, 1, 2.  With `j_start` computed from `UDiags` instead of `LDiags` (seeded edit of the COL_MAJOR loop) the range
+    would start at column 2 and the statement of row 2 would lose the columns 0 and 1. -/
+theorem band_jstart_uses_LDiags :
+    bandJStart 2 2 = 0 ∧ bandJEnd 0 3 2 - bandJStart 2 2 = 3 ∧
+    bandJStart 0 2 = 2 ∧ bandJEnd 0 3 2 - bandJStart 0 2 = 1 := by decide
+
 end Adept.Matmul.Old
